@@ -32,6 +32,12 @@ def cellValue (nan : α) (f : Nat → Nat → α) (fmask : Nat → Nat → Bool)
   | some nd => if isclose v nd then nan else v
   | none => v
 
+/-- missing-value rule of `vario_estimate_axis(field, no_data=…)`: a cell takes part in no pair iff it is masked or hits the
+    sentinel — `np.isnan(field)` when the sentinel is NaN (the default), `np.isclose(field, no_data)` otherwise.  The sentinel is
+    a VALUE: `0`, `0.0`, `-0.0` are sentinels like any other (nothing is decided by their truthiness). -/
+def axisMissing (masked : Bool) (noData v : α) : Bool :=
+  masked || (if isnan noData then isnan v else isclose v noData)
+
 /-- the prepared (positions, field) as index lists into the original arrays: point list after masking
     and after sub-sampling with the given index vector (`sampled = none`: no sub-sampling) -/
 def finalPoints (kept : List Nat) (sampled : Option (List Nat)) : List Nat :=
@@ -146,6 +152,10 @@ def ops (op : String) (j : Json) : Option (Except String Json) :=
       match varioBins be ll gs axes binNo maxDist with
       | .ok (c, k) => return Json.mkObj [("centres", fl c), ("kernel", fl k)]
       | .error e => return Json.mkObj [("raised", Json.str e)])
+  | "vario_axis_missing" => some (do
+      -- the mask `vario_estimate_axis` hands to the masked kernel (cell order of the input)
+      let f ← getFloats j "f"; let m ← getBools j "mask"; let nd ← getFloat j "no_data"
+      return Json.arr ((List.range f.size).map fun i => Json.bool (axisMissing m[i]! nd f[i]!)).toArray)
   | "vario_bins" => some (do
       let b ← getFloats j "bins"; let ll ← getBool j "latlon"; let gs ← getFloat j "geo_scale"
       return fl (binsToRadians b.toList ll gs))
